@@ -16,6 +16,7 @@
   tokens: atoms, `(`, `)`, the binary codes (U = `-`, X = `~`), 2 = not, 3 = #.
 -/
 import Oracle.Proto
+import Oracle.C02
 import GoluaVerif.Model.ParseExp
 import GoluaVerif.Spec.Literal
 namespace Oracle.C12
@@ -92,6 +93,167 @@ def readForms (cs : List Char) : List Choice :=
     { form := f } :: readForms r
   | [] => []
 
+/-! ### value of an expression tree whose leaves are given values (numeric literals): the MEANING
+    that every spelling of the tree must have.  Number semantics come from Spec.Num through the C02
+    oracle functions; `^` is computed exactly and only answered when the exact power is a double. -/
+
+inductive R where
+  | val (v : V)
+  | err
+  | unk
+
+def ofProto (s : String) : R :=
+  if s == "E" then .err else if s == "?" || s == "bad-line" then .unk
+  else match V.parse s with
+    | some v => .val v
+    | none => .unk
+
+/-- numbers, and strings that denote numbers, as numbers (arithmetic coercion) -/
+def asNumber : V → Option V
+  | .int n => some (.int n)
+  | .flt b => some (.flt b)
+  | .str s => match GoluaVerif.Spec.Numeral.str2number s.toList with
+    | some (.int n) => some (.int n)
+    | some (.flt f) => some (.flt (F64.toBits f))
+    | none => none
+  | _ => none
+
+def toF64 : V → Option GoluaVerif.F64
+  | .int n => some (GoluaVerif.F64.ofI64 n)
+  | .flt b => some (F64.ofBits b)
+  | _ => none
+
+/-- x ^ y when the exact result is representable (y a small integer), else unknown -/
+def powExact (x y : V) : R :=
+  match toF64 x, toF64 y with
+  | some (.fin na ma), some (.fin nb mb) =>
+    let scale := GoluaVerif.F64.scale
+    if mb % scale != 0 then .unk else
+    let k := mb / scale
+    if k > 64 then .unk else
+    if k == 0 then .val (.flt (F64.toBits (.fin false scale)))
+    else if ma == 0 then (if nb then .unk else .val (.flt (F64.toBits (.fin (na && k % 2 == 1) 0))))
+    else
+      let neg := na && k % 2 == 1
+      let (n, d) : Nat × Nat := if nb then (2 ^ (1074 * (k + 1)), ma ^ k) else (ma ^ k, 2 ^ (1074 * (k - 1)))
+      let r := GoluaVerif.Spec.Numeral.roundRat n d
+      if r * d != n || r ≥ 2 ^ 2098 then .unk else .val (.flt (F64.toBits (.fin neg r)))
+  | _, _ => .unk
+
+def truthy : V → Bool
+  | .nil => false
+  | .bool b => b
+  | _ => true
+
+def bytesLt : List UInt8 → List UInt8 → Bool
+  | [], [] => false
+  | [], _ :: _ => true
+  | _ :: _, [] => false
+  | a :: r, b :: t => if a < b then true else if b < a then false else bytesLt r t
+
+def c02name : BinOp → String
+  | .add => "add" | .sub => "sub" | .mul => "mul" | .div => "div" | .mod => "mod" | .idiv => "idiv"
+  | .band => "band" | .bor => "bor" | .bxor => "bxor" | .shl => "shl" | .shr => "shr"
+  | .lt => "lt" | .le => "le" | .gt => "gt" | .ge => "ge" | .eq => "eq" | .ne => "ne"
+  | _ => "?"
+
+def isNum : V → Bool
+  | .int _ => true | .flt _ => true | _ => false
+
+def evalBin (o : BinOp) (x y : V) : R :=
+  match o with
+  | .and => .val (if truthy x then y else x)
+  | .or => .val (if truthy x then x else y)
+  | .add | .sub | .mul | .div | .mod | .idiv =>
+    match asNumber x, asNumber y with
+    | some a, some b => ofProto (Oracle.C02.bin (c02name o) a b)
+    | _, _ => .err
+  | .pow =>
+    match asNumber x, asNumber y with
+    | some a, some b => powExact a b
+    | _, _ => .err
+  | .band | .bor | .bxor | .shl | .shr =>
+    if isNum x && isNum y then ofProto (Oracle.C02.bin (c02name o) x y)
+    else match x, y with
+      | .str _, _ => .unk
+      | _, .str _ => .unk
+      | _, _ => .err
+  | .concat =>
+    let part : V → Option (Option (List UInt8)) := fun v => match v with
+      | .int n => some (some (toString n.toInt).toUTF8.toList)
+      | .str s => some (some s.toList)
+      | .flt _ => some none
+      | _ => none
+    match part x, part y with
+    | some (some a), some (some b) => .val (.str (ByteArray.mk (List.toArray (a ++ b))))
+    | some _, some _ => .unk
+    | _, _ => .err
+  | .lt | .le | .gt | .ge =>
+    if isNum x && isNum y then ofProto (Oracle.C02.bin (c02name o) x y)
+    else match x, y with
+      | .str a, .str b =>
+        let a := a.toList
+        let b := b.toList
+        .val (.bool (match o with
+          | .lt => bytesLt a b | .le => !bytesLt b a | .gt => bytesLt b a | _ => !bytesLt a b))
+      | _, _ => .err
+  | .eq | .ne =>
+    let e : Option Bool :=
+      if isNum x && isNum y then
+        (match Oracle.C02.bin "eq" x y with | "t" => some true | "F" => some false | _ => none)
+      else match x, y with
+        | .str a, .str b => some (a.toList == b.toList)
+        | .bool a, .bool b => some (a == b)
+        | .nil, .nil => some true
+        | _, _ => some false
+    match e with
+    | some b => .val (.bool (if o == .eq then b else !b))
+    | none => .unk
+
+def evalUn (u : UnOp) (x : V) : R :=
+  match u with
+  | .not => .val (.bool (!truthy x))
+  | .len => match x with
+    | .str s => .val (.int (BitVec.ofNat 64 s.size))
+    | _ => .err
+  | .neg => match asNumber x with
+    | some a => ofProto (Oracle.C02.un "unm" a)
+    | none => .err
+  | .bnot => if isNum x then ofProto (Oracle.C02.un "bnot" x) else match x with
+    | .str _ => .unk
+    | _ => .err
+
+def evalExp (leaf : Nat → Option V) : Exp → R
+  | .atom n => match leaf n with
+    | some v => .val v
+    | none => .unk
+  | .un u e => match evalExp leaf e with
+    | .val v => evalUn u v
+    | r => r
+  | .bin o l r =>
+    match evalExp leaf l with
+    | .val x =>
+      -- `and` / `or` do not evaluate their right operand when the left decides
+      if o == .and && !truthy x then .val x
+      else if o == .or && truthy x then .val x
+      else match evalExp leaf r with
+        | .val y => evalBin o x y
+        | r => r
+    | r => r
+
+def R.show : R → String
+  | .val v => v.show
+  | .err => "E"
+  | .unk => "?"
+
+/-- shape of an expression list: s = single, m<k> = call/vararg with k values, p<k> = the same in parentheses -/
+def readShape (s : String) : Option (List ListItem) :=
+  (s.splitOn ",").mapM fun it =>
+    if it == "s" then some .single
+    else if it.startsWith "m" then (it.drop 1).toString.toNat?.map fun k => .multi k false
+    else if it.startsWith "p" then (it.drop 1).toString.toNat?.map fun k => .multi k true
+    else none
+
 def handle (line : String) : String :=
   match line.splitOn " " with
   | ["exp", tree, toks, "=", _] =>
@@ -99,6 +261,18 @@ def handle (line : String) : String :=
     | some (e, table, []), some ts =>
       let ps : Parens := fun p => ((table.find? (·.1 == p)).map (·.2)).getD 0
       if render e ps == ts then parseShow ts else "render-mismatch"
+    | _, _ => "bad-line"
+  | ["eval", tree, vals, "=", _] =>
+    match readTree tree.toList [] with
+    | some (e, _, []) =>
+      let vs := (vals.splitOn ",").map V.parse
+      (evalExp (fun i => (vs.getD i none)) e).show
+    | _ => "bad-line"
+  | ["mv", cap, shape, "=", _] =>
+    match readShape shape, cap.toNat? with
+    | some items, some c =>
+      let n := explistCount items
+      toString (if c == 0 then n else min n c)
     | _, _ => "bad-line"
   | ["toks", toks, "=", _] =>
     match readToks toks with
